@@ -21,7 +21,7 @@ def sh(cmd, **kw):
 
 
 def main():
-    prop, k, src = sys.argv[1], sys.argv[2], sys.argv[3]
+    prop, k, src = sys.argv[1], sys.argv[2], os.path.abspath(sys.argv[3])
     props = [prop]
     tier = 'quick'
     for i, a in enumerate(sys.argv):
@@ -52,7 +52,15 @@ def main():
         r = sh('/venv/bin/python %s %s/src' % (demo, wt))
         out['demo_clean_exit'] = r.returncode
         r = sh('git -C %s apply --3way %s' % (wt, diff))
-        assert r.returncode == 0, 'patch does not apply: ' + r.stdout
+        if r.returncode != 0 or sh('git -C %s diff --name-only --diff-filter=U' % wt).stdout.strip():
+            # the code the change touches was itself changed by a later fix: in /repo: keep the record of the last run
+            dst = os.path.join(ROOT, 'seeded', name)
+            if os.path.exists(os.path.join(dst, 'meta.json')):
+                old = json.load(open(os.path.join(dst, 'meta.json')))
+                old['no_longer_applies_to'] = sh('git -C /repo rev-parse --short HEAD').stdout.strip()
+                json.dump(old, open(os.path.join(dst, 'meta.json'), 'w'), indent=1)
+            print(json.dumps({'property': prop, 'applies': False, 'detail': r.stdout[-300:]}))
+            return
         r = sh('cd %s && /venv/bin/python -m pytest -q -p no:cacheprovider tests 2>&1 | tail -1' % wt)
         out['tests_with_change'] = r.stdout.strip()
         r = sh('/venv/bin/python %s %s/src' % (demo, wt))
@@ -61,12 +69,22 @@ def main():
         confirmed = out['demo_clean_exit'] == 0 and out['demo_mutated_exit'] == 1 and '306 passed' in out['tests_with_change']
         out['confirmed'] = confirmed
         detected = {}
+        # the checks run in a private copy of /verif, so that evidence written for the changed tree never lands in /verif
+        vcopy = wt + '-verif'
+        shutil.rmtree(vcopy, ignore_errors=True)
+        os.makedirs(vcopy)
+        for item in ('spec', 'harness', 'check', 'known_findings.json', 'properties.jsonl'):
+            src_ = os.path.join(ROOT, item)
+            if os.path.isdir(src_):
+                shutil.copytree(src_, os.path.join(vcopy, item), ignore=shutil.ignore_patterns('__pycache__'))
+            else:
+                shutil.copy2(src_, os.path.join(vcopy, item))
         for p in props:
             t0 = time.time()
             env = dict(os.environ, VERIF_REPO=wt)
-            r = subprocess.run(['./check', p, '--tier', tier], cwd=ROOT, env=env, stdout=subprocess.PIPE, stderr=subprocess.STDOUT, text=True)
+            r = subprocess.run(['./check', p, '--tier', tier], cwd=vcopy, env=env, stdout=subprocess.PIPE, stderr=subprocess.STDOUT, text=True)
             lines = [l for l in r.stdout.splitlines() if l.startswith('VIOLATION') or l.startswith('MACHINERY')]
-            detected[p] = {'exit': r.returncode, 'lines': [l.replace(ROOT, '.') for l in lines][:6], 'wall_s': round(time.time() - t0, 1)}
+            detected[p] = {'exit': r.returncode, 'lines': [l.replace(vcopy, '.') for l in lines][:6], 'wall_s': round(time.time() - t0, 1)}
             out['ran'].append('VERIF_REPO=%s ./check %s --tier %s -> exit %d' % (wt, p, tier, r.returncode))
         out['detected_by'] = detected
         dst = os.path.join(ROOT, 'seeded', name)
@@ -83,8 +101,7 @@ def main():
         print(json.dumps(out, indent=1))
     finally:
         sh('git -C /repo worktree remove --force %s' % wt)
-        # evidence files were rewritten by runs against the mutated tree: restore the committed ones
-        sh('git -C %s checkout -- evidence' % ROOT)
+        shutil.rmtree(wt + '-verif', ignore_errors=True)
 
 
 if __name__ == '__main__':
